@@ -161,6 +161,15 @@ fn subst_tree<H: Hasher>(rep: &mut Report, name: &str, rng: &mut Rng, n: usize, 
                 expect_reject(rep, name, "batch-node", json!({"b": bctx, "node": [a, b]}), r);
             }
         }
+        // a node the tree's proof does not have, appended to one vector (single-index batches
+        // included: the proof is then an over-long ordinary path)
+        for a in 0..proof.nodes.len() {
+            let mut n2 = proof.nodes.clone();
+            let extra = if rng.bool() { other_digest::<H>(rng) } else { n2[a].last().copied().unwrap_or(bl[0]) };
+            n2[a].push(extra);
+            let r = guard(|| verify(&idx, &bl, &n2, proof.depth));
+            expect_reject(rep, name, if idx.len() == 1 { "batch-node-appended:single-index" } else { "batch-node-appended" }, json!({"b": bctx, "vector": a}), r);
+        }
         // two nodes of one vector swapped / two vectors swapped
         for a in 0..proof.nodes.len() {
             if proof.nodes[a].len() >= 2 && proof.nodes[a][0] != proof.nodes[a][1] {
@@ -289,7 +298,7 @@ fn subst_hasher<H: Hasher>(rep: &mut Report, name: &str, seed: u64, thorough: bo
 
 pub fn subst(args: &Args) {
     let mut rep = Report::new("C19", "c19_subst",
-        "honest single and batch openings of trees with 2..2^K distinct leaves x 6 hashers; every single substitution (leaf, each path/proof node, index -> every other in-range index (all for <= 64 leaves), out-of-range and duplicated indexes (adjacent and not), swapped indexes, swapped nodes, missing leaf, dropped opening, depth, root) must be rejected; evaluation = one substitution; distinct = trees");
+        "honest single and batch openings of trees with 2..2^K distinct leaves x 6 hashers; every single substitution (leaf, each path/proof node, index -> every other in-range index (all for <= 64 leaves), out-of-range and duplicated indexes (adjacent and not), swapped indexes, swapped nodes, a surplus node appended to a proof vector (single-index batches included), missing leaf, dropped opening, depth, root) must be rejected; evaluation = one substitution; distinct = trees");
     let (seed, thorough) = (args.seed(), args.thorough());
     subst_hasher::<Blake3_256<f64m::BaseElement>>(&mut rep, "Blake3_256", seed, thorough, false);
     subst_hasher::<Blake3_192<f62::BaseElement>>(&mut rep, "Blake3_192", seed, thorough, false);
